@@ -377,9 +377,17 @@ def parse_out(out):
     res = []
     for part in out.split(" "):
         g = part.split(";")
-        if len(g) != 6:
+        if len(g) != 7:
             return None
-        res.append(dict(codes=g[0], pre=num(g[1]), q=num(g[2]), h=int(g[3]), state=g[4], wire=tok_bytes(g[5])))
+        x = dict(codes=g[0], pre=num(g[1]), q=num(g[2]), h=int(g[3]), state=g[4], wire=tok_bytes(g[5]))
+        e = g[6].split("/")
+        x["att"] = num(e[0])
+        if len(e) == 4:
+            x["acc"] = num(e[1])
+            x["udp"] = [[] if d == "-" else [tok_bytes(t) for t in d.split(",")] for d in e[2:4]]
+        elif len(e) != 1:
+            return None
+        res.append(x)
     return res
 
 
